@@ -44,26 +44,33 @@ def confirm(d):
     sh("git -C %s checkout -- ." % WT)
     return dict(builds=ok0 and ok1, ctest_ok=ctest_ok, demo_differs=(plain != patched), plain=repr(plain)[:600], patched=repr(patched)[:600])
 
+SEEDREPO = "/tmp/mut/seedrepo"
+
 def run_checks(d, pids, tier="quick"):
+    """run the checks against a scratch export of /repo HEAD with the patch applied (VERIF_REPO); /repo itself is not touched,
+    so registered checks can run at the same time. (Equivalent to: git -C /repo apply; run; git -C /repo checkout -- .)"""
     res = {}
-    r = sh("git -C /repo status --porcelain --untracked-files=no")
-    assert r.stdout.strip() == "", "repo not clean: " + r.stdout
-    r = sh("git -C /repo apply %s" % os.path.join(d, "patch.diff")); assert r.returncode == 0, r.stderr
+    shutil.rmtree(SEEDREPO, ignore_errors=True); os.makedirs(SEEDREPO)
+    r = sh("git -C /repo archive HEAD | tar -x -C %s" % SEEDREPO); assert r.returncode == 0, r.stderr
+    r = sh("patch -p1 -s -d %s < %s" % (SEEDREPO, os.path.join(d, "patch.diff"))); assert r.returncode == 0, r.stdout + r.stderr
     try:
         for pid in pids:
             t0 = time.time()
-            env = dict(os.environ); env["VERIF_DEV"] = os.environ.get("VERIF_DEV", "1")
+            env = dict(os.environ); env["VERIF_DEV"] = os.environ.get("VERIF_DEV", "1"); env["VERIF_REPO"] = SEEDREPO
             p = subprocess.run(["python3", os.path.join(VERIF, "harness", "check.py"), pid, "--tier", tier], cwd=VERIF, capture_output=True, text=True, env=env)
             viol = [l for l in p.stdout.split("\n") if l.startswith("VIOLATION")]
+            allpaths = [l.split("replay=")[1].split()[0] for l in viol if "replay=" in l]
             res[pid] = dict(exit=p.returncode, violations=viol[:3], summary=p.stdout.strip().split("\n")[-1][:200], wall=round(time.time() - t0))
             # keep one replay for the record
             for v in viol[:1]:
                 path = v.split("replay=")[1].split()[0]
                 if os.path.exists(path):
                     shutil.copy(path, os.path.join(d, "replay-%s.json" % pid))
+            for path in allpaths:
+                # replays of a seeded change are not findings about /repo
+                if path.startswith(os.path.join(VERIF, "replays")) and os.path.exists(path): os.remove(path)
     finally:
-        sh("git -C /repo checkout -- .")
-        sh("find %s/replays -name '*.json' -newer %s/patch.diff -delete" % (VERIF, d))
+        shutil.rmtree(SEEDREPO, ignore_errors=True)
     return res
 
 if __name__ == "__main__":
